@@ -26,6 +26,7 @@ package web
 //@   assigns #status, #httpErrors, #rpcOK, #rpcUser, #rpcPass, #rpcAuthenticated
 //@   ensures[C05] confirmed: authenticated ==> h.SocketAddress != "" && #rpcOK && #rpcAuthenticated && #rpcUser == username && #rpcPass == password
 //@   ensures[C05] quiet: authenticated ==> #status == old(#status)
+//@   ensures[C05] refused: !authenticated ==> #status == old(#status) || (old(#status) == 0 && #status == 500)
 //@   nopanic[C10]
 
 //@ func (*BasicAuthHandler).BasicAuth$1
